@@ -542,7 +542,7 @@ def c01(tier):
     def inners(n):
         # Echo and Constant are leaves themselves (the Probe stands in for Echo)
         return [c for c in catalogue(n, positive=True) if c["k"] not in ("Add", "Subtract", "Multiply", "Divide", "Echo", "Constant")]
-    L = 4 if tier == "quick" else 6
+    L = 4 if tier == "quick" else 5
     combos = [(3, 2)] if tier == "quick" else [(2, 3), (3, 2), (1, 3), (3, 1)]
     for nb, na in combos:
         outs = unary(nb)
